@@ -1079,25 +1079,25 @@ func shortcutBody(c *Ctx, S *sidesInfo, sb *stepBody, tot *scTotals) {
 	oldItem, newItem := sb.old, sb.new
 	stackSlots := sb.stacks
 	isLinkOf := func(v ssa.Value, item ssa.Value) bool { return S.linkOfItem(v, item) }
-	isItem := func(v ssa.Value, item ssa.Value) bool { return sb.isItem(v, item) }
+	_ = sb.isItem
 	// facts of a block (with what is known on entry)
 	type bfacts struct{ oldLink, newLink, oldNil, newNil bool }
 	factsOf := func(b *ssa.BasicBlock) bfacts {
 		f := bfacts{oldLink: sb.oldSt == isLink, newLink: sb.newSt == isLink, oldNil: sb.oldSt == isAbsent, newNil: sb.newSt == isAbsent}
 		for _, ft := range sdExpandFacts(ir.FactsAt(b), 0) {
-			v, tnn, ok := ir.NilTest(ft.Cond)
-			if !ok {
+			it, lk, tnn, ok := S.itemTest(ft.Cond)
+			if !ok || it == nil {
 				continue
 			}
 			nonNil := ft.Truth == tnn
 			switch {
-			case isLinkOf(v, oldItem) && nonNil:
+			case lk && it == oldItem && nonNil:
 				f.oldLink = true
-			case isLinkOf(v, newItem) && nonNil:
+			case lk && it == newItem && nonNil:
 				f.newLink = true
-			case isItem(v, oldItem) && !nonNil:
+			case !lk && it == oldItem && !nonNil:
 				f.oldNil = true
-			case isItem(v, newItem) && !nonNil:
+			case !lk && it == newItem && !nonNil:
 				f.newNil = true
 			}
 		}
@@ -3009,6 +3009,8 @@ func stepConsumeReach(S *sidesInfo, sb *stepBody, sd bodySide, blocked map[*ssa.
 	}
 	var states []int
 	switch {
+	case sd.otherSt == isPresent:
+		states = []int{isEntry, isLink}
 	case sd.otherSt != isUnknown:
 		states = []int{sd.otherSt}
 	case other == nil:
@@ -3019,18 +3021,21 @@ func stepConsumeReach(S *sidesInfo, sb *stepBody, sd bodySide, blocked map[*ssa.
 	reach := map[*ssa.BasicBlock]bool{}
 	for _, otherState := range states {
 		leaf := func(cond ssa.Value) (bool, bool) {
-			v, tnn, ok := ir.NilTest(cond)
-			if !ok {
+			it, lk, tnn, ok := S.itemTest(cond)
+			if !ok || it == nil {
 				return false, false
 			}
 			nonNil, known := false, false
 			switch {
-			case sb.isItem(v, item) || isLinkOf(v, item):
+			case it == item:
 				nonNil, known = true, true
-			case sb.isItem(v, other) && otherState != isUnknown:
+			case !lk && other != nil && it == other && otherState != isUnknown:
 				nonNil, known = otherState != isAbsent, true
-			case isLinkOf(v, other) && (otherState == isEntry || otherState == isLink):
+			case lk && other != nil && it == other && (otherState == isEntry || otherState == isLink):
 				nonNil, known = otherState == isLink, true
+			case lk && other != nil && it == other && otherState == isAbsent:
+				// no item, no link: answer repeated tests consistently
+				nonNil, known = false, true
 			}
 			if !known {
 				return false, false
@@ -3714,6 +3719,7 @@ const (
 	isAbsent  = 1 // the item is nil
 	isEntry   = 2 // the item exists and its link is nil
 	isLink    = 3 // the item exists and carries a link
+	isPresent = 4 // the item exists; link or entry not known
 )
 
 // stepBody is a function that handles (a part of) one diff step: the step
@@ -3752,17 +3758,19 @@ func (S *sidesInfo) itemState(b *stepBody, blk *ssa.BasicBlock, item ssa.Value, 
 		return st
 	}
 	for _, ft := range sdExpandFacts(ir.FactsAt(blk), 0) {
-		v, tnn, ok := ir.NilTest(ft.Cond)
-		if !ok {
+		it, lk, tnn, ok := S.itemTest(ft.Cond)
+		if !ok || it != item {
 			continue
 		}
 		nonNil := ft.Truth == tnn
 		switch {
-		case b.isItem(v, item):
+		case !lk:
 			if !nonNil {
 				st = isAbsent
+			} else if st == isUnknown {
+				st = isPresent
 			}
-		case S.linkOfItem(v, item):
+		default:
 			if nonNil {
 				st = isLink
 			} else {
